@@ -1423,7 +1423,8 @@ impl VisitMut for Norm {
                     }
                     if let Pat::Or(po) = &arm.pat {
                         let scrut_mut = matches!(&*m.expr, Expr::Reference(r) if r.mutability.is_some());
-                        if pat_binds_by_mut_ref(&arm.pat) || (scrut_mut && has_binding(&arm.pat)) {
+                        // (also: an or-pattern with a guard, `A | B if g => X` = `A if g => X, B if g => X`: unsupported by Verus as one arm)
+                        if pat_binds_by_mut_ref(&arm.pat) || (scrut_mut && has_binding(&arm.pat)) || arm.guard.is_some() {
                             for case in po.cases.iter() {
                                 let mut a = arm.clone();
                                 a.pat = case.clone();
